@@ -6,6 +6,8 @@ use crate::tzsyn::{self, Synth};
 use arbitrary::Unstructured;
 use astrolabe::verif::Tz;
 use astrolabe::{DateTime, DateUtilities, Offset, OffsetUtilities, TimeUtilities};
+#[allow(unused_imports)]
+use astrolabe::DateTime as _Dt;
 use serde::{Deserialize, Serialize};
 
 #[derive(Debug, Clone, Hash, Serialize, Deserialize)]
@@ -246,7 +248,11 @@ pub fn judge(c: &Case, cx: &mut Cx) -> Verdict {
             let Some(want) = tzf.offset_at(t) else { continue };
             let r = catch(|| {
                 astrolabe::verif::set_localtime(Some(Ok(bytes.clone())));
-                astrolabe::verif::set_now(Some(DateTime::from_timestamp(t)));
+                // the clock also shows fractions of a second: the offset in force during the whole
+                // second `t` is the one at `t` (before 1970 too, where seconds count down)
+                let sub = [0u32, 1, 250_000_000, 999_999_999][(t as u64 ^ (t as u64 >> 7)) as usize % 4];
+                let now = DateTime::from_timestamp(t);
+                astrolabe::verif::set_now(Some(if sub == 0 { now } else { now.add_nanos(sub) }));
                 let got = Offset::Local.resolve();
                 // the documented entry point: the current time read in the local zone
                 let d = DateTime::now_local();
